@@ -279,9 +279,9 @@ PAIRS = [
     Pair("unprefixize-if-possible-vs-mandatory", "shexer.utils.uri:unprefixize_uri_if_possible", "shexer.utils.uri:unprefixize_uri_mandatory",
          expected=[(r"return v0", r"raise ValueError\(.*\)", "the mandatory variant rejects an unknown prefix instead of returning the input")],
          props=("C07", "C10")),
-    Pair("nt-bnode-vs-number-token", "shexer.io.graph.yielder.nt_triples_yielder:NtTriplesYielder._look_for_last_index_of_bnode_token",
-         "shexer.io.graph.yielder.nt_triples_yielder:NtTriplesYielder._look_for_last_index_of_unlabelled_number_token", props=("C06",),
-         why="both tokens end at the next blank"),
+    # (the pair nt-bnode-vs-number-token was retired with fix eb7372d: the blank-node scanner now also gives back the statement's
+    #  final dot, which a bare number must not do ("5." is a decimal); both scanners are decided by the N-Triples token and
+    #  document tables instead)
     Pair("instantiation-property-profiler-vs-serializer", CP + "_decide_instantiation_property",
          "shexer.io.shex.formater.shex_serializer:ShexSerializer._decide_instantiation_property", props=("C10", "C11")),
     Pair("shape-removal-profiler-vs-shexer", CP + "_clean_class_profile", "shexer.core.shexing.class_shexer:ClassShexer._clean_empty_shapes",
